@@ -374,8 +374,29 @@ impl Default for ExecCfg {
 /// number of executions that got stuck in real time (busy loop / blocking call inside one poll) in this process
 pub static WEDGED: std::sync::atomic::AtomicUsize = std::sync::atomic::AtomicUsize::new(0);
 
-/// Run one execution (choice vector = `prefix` then defaults) on a fresh thread.
+/// executions whose first run made no progress within the watchdog but whose repetition (same choice vector, fresh
+/// thread) completed: a disturbance of the machine, not a property of the code — counted, never a verdict
+pub static DISTURBED: std::sync::atomic::AtomicUsize = std::sync::atomic::AtomicUsize::new(0);
+
+/// Run one execution (choice vector = `prefix` then defaults) on a fresh thread. "Made no progress in real time" is
+/// reported only when the same choice vector does it twice (a busy loop or blocking call is deterministic; a stall of
+/// the machine is not).
 pub fn run_exec(sc: &ScenarioFn, cfg: &ExecCfg, prefix: &[u16], expect_hash: u64) -> ExecRecord {
+    let r = run_exec_once(sc, cfg, prefix, expect_hash, false);
+    if !r.outcome.violations.iter().any(|v| v.key == "wedged-real-time") {
+        return r;
+    }
+    let again = run_exec_once(sc, cfg, prefix, expect_hash, true);
+    if again.outcome.violations.iter().any(|v| v.key == "wedged-real-time") {
+        return again;
+    }
+    // the repetition completed: take the first stall back
+    WEDGED.fetch_sub(1, std::sync::atomic::Ordering::SeqCst);
+    DISTURBED.fetch_add(1, std::sync::atomic::Ordering::SeqCst);
+    again
+}
+
+fn run_exec_once(sc: &ScenarioFn, cfg: &ExecCfg, prefix: &[u16], expect_hash: u64, full_watchdog: bool) -> ExecRecord {
     if WEDGED.load(std::sync::atomic::Ordering::SeqCst) >= 3 {
         // not started: three executions of this process are already stuck for good
         return ExecRecord { trace: prefix.iter().map(|c| Choice { site: "?", n: u16::MAX, chosen: *c }).collect(), outcome: Outcome::default(), diverged: None, notes: vec!["skipped: stuck executions".into()] };
@@ -470,7 +491,7 @@ pub fn run_exec(sc: &ScenarioFn, cfg: &ExecCfg, prefix: &[u16], expect_hash: u64
     // stuck executions cannot be killed and keep a core busy: after the first one the watchdog is short, after three no
     // further execution is started (the violation is already established; see WEDGED)
     let wedged = WEDGED.load(std::sync::atomic::Ordering::SeqCst);
-    let watchdog = if wedged == 0 { cfg.watchdog } else { cfg.watchdog.min(Duration::from_secs(8)) };
+    let watchdog = if wedged == 0 || full_watchdog { cfg.watchdog } else { cfg.watchdog.min(Duration::from_secs(8)) };
     match rx.recv_timeout(watchdog) {
         Ok(r) => {
             let _ = th.join();
